@@ -304,6 +304,7 @@ func c10Paths() []c10Path {
 		{name: "rest compressed>connect.proto", client: wire.REST, rest: true, ccodec: "json", ccomp: true, target: wire.ConnectUnary, tcodec: "proto", cl: true},
 		{name: "grpc>rest", client: wire.GRPC, ccodec: "proto", target: wire.REST, tcodec: "json"},
 		{name: "grpcweb compressed>rest compressed", client: wire.GRPCWeb, ccodec: "proto", ccomp: true, target: wire.REST, tcodec: "json", tcomp: "same"},
+		{name: "buffer-to-measure response rest>grpcweb same codec", client: wire.GRPCWeb, ccodec: "json", target: wire.REST, tcodec: "json"},
 		{name: "cget compressed>grpc", client: wire.ConnectGet, ccodec: "proto", ccomp: true, target: wire.GRPC, tcodec: "proto"},
 	}
 }
@@ -673,6 +674,11 @@ func c10Scenario(thorough bool) func(c *xplor.Ctx) {
 		}
 		c.AddEvaluations(1)
 
+		// whatever happens, what the client receives is well-formed in its protocol: exactly
+		// one end, nothing after it
+		if len(pr.Complaints) > 0 {
+			c.Fail("C10.malformed-response", "the client's response is not well-formed: %v", pr.Complaints)
+		}
 		// (a) the memory bound, on the three seams
 		if st.maxPulled > 4*L+c10Slack {
 			c.Fail("C10.inflated-beyond-limit", "%d bytes were pulled out of one decompressor under a limit of %d", st.maxPulled, L)
@@ -819,10 +825,6 @@ func c10Errors(c *xplor.Ctx) {
 		}
 		rawLen = probe(n)
 		rep := build(n)
-		if comp != "" && !world.ServerFormFor(req.Form).Enveloped() {
-			rep.Out.Body = wire.CompByName(comp).Compress(rep.Out.Body)
-			rep.Out.Header.Set("Content-Encoding", comp)
-		}
 		bodyLen = len(rep.Out.Body)
 		return rep
 	}
@@ -899,7 +901,7 @@ func init() {
 	Register(&Check{
 		ID:    "C10",
 		Level: "fault_enumeration",
-		Rule: "Every combination of 19 adapter paths (re-frame, same-compression pass-through, decompress-only, re-compress, re-encode in both directions, buffer-to-measure with and without Content-Length, unary buffering, enveloped-to-flat, REST in and out, Connect GET) x direction (request / response) x limit L in {512, 2048} (+100 KiB thorough) x message shape (plain, 6x proto->JSON expansion, 3x JSON->proto expansion) x measured representation (wire, decompressed, re-encoded) x size (closest to L-1, L, L+1, 2L, 8L; 50L and 1000L as compression bombs / huge bodies) x compression (1:1 'rev', run-length 'rle' at ratio 0.5, 50:1, 1000:1) is sent through the real ServeHTTP. " +
+		Rule: "Every combination of 20 adapter paths (re-frame, same-compression pass-through, decompress-only, re-compress, re-encode in both directions, buffer-to-measure with and without Content-Length, unary buffering, enveloped-to-flat, REST in and out, Connect GET) x direction (request / response) x limit L in {512, 2048} (+100 KiB thorough) x message shape (plain, 6x proto->JSON expansion, 3x JSON->proto expansion) x measured representation (wire, decompressed, re-encoded) x size (closest to L-1, L, L+1, 2L, 8L; 50L and 1000L as compression bombs / huge bodies) x compression (1:1 'rev', run-length 'rle' at ratio 0.5, 50:1, 1000:1) is sent through the real ServeHTTP. " +
 			"Seams the transcoder cannot avoid are instrumented: bytes pulled from a decompressor per message (<= 4L+64 KiB), payload sizes handed to / produced by the codecs (decode input and compressor input <= L), capacity of pooled message buffers (<= 16L+64 KiB). Oracle: bounds hold; a message whose decompressed / re-encoded / must-be-buffered flat representation exceeds L is never delivered; every failure is resource_exhausted and is justified by some representation > L (so messages whose every representation fits are never rejected).",
 		Assume: []string{"sizes are those constructed by the harness and those observed at the codec / compressor seams (exact, no slack)", "the pooled-buffer bound is checked for buffers <= 8 MiB (larger ones are not recycled by bufferPool.Put and are covered by the decompressor seam)"},
 		Scenarios: []Scenario{
